@@ -30,9 +30,10 @@ func init() {
 	hx.Register(&hx.Prop{
 		ID: "C03",
 		Rule: "type-directed by reflection over the library's own structs. Exhaustive: every object kind of openapi3 and openapi2 (struct kinds, reference wrappers, map-like containers) × every single field × every value variant of the field's Go type " +
-			"(non-default, redundant default, null, empty, $ref with and without siblings) × 3 extension shapes (none, x- extension, unknown key) × writers/readers (encoding/json, oasdiff/yaml, yaml3 via MarshalYAML); every pair of fields of every kind; " +
-			"then a seeded random stream of nested documents (depth ≤ 4) of every kind, whole v3 documents through Loader.LoadFromData and whole v2 documents. " +
-			"A case is non-trivial when the model reports a branch (a kind visited, a field kept, a default dropped, a required key added, an extension or unknown key kept, a reference taken, siblings dropped, …).",
+			"(non-default, redundant default, null, empty, $ref with and without siblings, $ref that is empty / null / not a string, type lists that are empty, hold null or are ill-typed) × 3 extension shapes (none, x- extension, unknown key) × writers/readers (encoding/json, oasdiff/yaml, yaml3 via MarshalYAML); every pair of fields of every kind; " +
+			"the Schema post-processing grid format × example (flat and nested); " +
+			"then a seeded random stream of nested documents (depth ≤ 4; 400 per kind quick, 8000 thorough) of every kind, whole v3 documents through Loader.LoadFromData (800 / 20000) and whole v2 documents. " +
+			"A case is non-trivial when the model reports a branch (a kind visited, a field kept, a default dropped, a required key added, an extension or unknown key kept, a reference taken, siblings dropped, …); the branch spec.normal counts the cases in deep normal form, excl.notClean those outside the scope of the deep theorems.",
 		Exhaustive: true,
 		Gen:        genC03,
 		Run:        runC03,
@@ -948,9 +949,9 @@ func genC03(ctx *hx.Ctx, emit func(hx.Case)) {
 		}
 	}
 	// 2. random nested documents of every kind
-	n := 200
+	n := 400
 	if ctx.Thorough() {
-		n = 3000
+		n = 8000
 	}
 	for i := 0; i < n; i++ {
 		for _, k := range c03Kinds {
@@ -963,9 +964,9 @@ func genC03(ctx *hx.Ctx, emit func(hx.Case)) {
 		}
 	}
 	// 3. whole v3 documents through the loader (references resolvable)
-	m := 400
+	m := 800
 	if ctx.Thorough() {
-		m = 8000
+		m = 20000
 	}
 	tk := c03ByName["kind:openapi3.T"]
 	for i := 0; i < m; i++ {
